@@ -7,6 +7,7 @@ import E2P.Props.C05
 import E2P.Generated.GrammarRank
 import Mathlib.Tactic.Linarith
 import E2P.Lemmas.LexLemmas
+import E2P.Lemmas.PegMemo
 namespace E2P.C06
 open E2P E2P.C05
 
@@ -257,6 +258,60 @@ theorem parse_total (toks : List Tok) :
     | none => rw [hp] at h; simp at h
     | raise => rw [hp] at h; simp at h
     | depth => exact hnd hp
+
+/-! ### the memo table of `CompositeBaseToken.get` -/
+
+/-- **The memo table is transparent** (every grammar, every token list): `AstBuilder.parse` with the table
+    `(class, number of remaining tokens) -> result` returns exactly what the parser without a table returns. Entries are
+    only ever read for a suffix of the token list of the same `AstBuilder.parse` call, and a suffix is determined by its
+    length (`MemoOK`, `pegGetM_sim`); depth exhaustion is excluded by `parse_total` for the grammar of this run. -/
+theorem memo_transparent (fuel : Nat) (entry : String) (toks : List Tok) (h : astBuild G fuel entry toks ≠ .depth) :
+    (astBuildM G fuel entry toks).1 = astBuild G fuel entry toks := by
+  have hnd : pegGet G fuel entry toks ≠ .depth := by
+    intro e; apply h; unfold astBuild; rw [e]
+  obtain ⟨e1, _⟩ := PegMemo.pegGetM_sim G toks fuel entry toks MemoSt.empty (List.suffix_refl toks)
+    (PegMemo.memoOK_empty G toks) hnd
+  unfold astBuildM astBuild
+  rcases hm : pegGetM G fuel entry toks MemoSt.empty with ⟨r, s⟩
+  rw [hm] at e1
+  simp only at e1
+  rw [← e1]
+  cases r with
+  | ok t rest => cases rest <;> rfl
+  | none => rfl
+  | raise => rfl
+  | depth => rfl
+
+/-- the same from ANY table that is sound for this token list (e.g. the table another rule of the same parse left) -/
+theorem memo_transparent_from (fuel : Nat) (cls : String) (orig toks : List Tok) (s : MemoSt) (hsuf : toks <:+ orig)
+    (hok : PegMemo.MemoOK G orig s) (h : pegGet G fuel cls toks ≠ .depth) :
+    (pegGetM G fuel cls toks s).1 = pegGet G fuel cls toks ∧ PegMemo.MemoOK G orig (pegGetM G fuel cls toks s).2 :=
+  PegMemo.pegGetM_sim G orig fuel cls toks s hsuf hok h
+
+/-- **The memoised parser of this run** accepts a tree covering all tokens or rejects - on every token list, with the
+    proved depth, and with the answer of the parser without a table. -/
+theorem parse_total_memo (toks : List Tok) :
+    (astBuildM generated (toks.length * 6 + 6) "EntryPointToken" toks).1 =
+        astBuild generated (toks.length * 6 + 6) "EntryPointToken" toks ∧
+      ((∃ t, (astBuildM generated (toks.length * 6 + 6) "EntryPointToken" toks).1 = .accept t ∧ t.leaves = toks) ∨
+        (astBuildM generated (toks.length * 6 + 6) "EntryPointToken" toks).1 = .reject) := by
+  have hp := parse_total toks
+  have hnd : astBuild generated (toks.length * 6 + 6) "EntryPointToken" toks ≠ .depth := by
+    rcases hp with ⟨t, h, _⟩ | h <;> rw [h] <;> simp
+  have e := memo_transparent generated (toks.length * 6 + 6) "EntryPointToken" toks hnd
+  refine ⟨e, ?_⟩
+  rw [e]; exact hp
+
+/-- a table that is NOT sound does change the answer (why the hypothesis is there, and what a table kept across two
+    `AstBuilder.parse` calls would do): with a stale entry for `(EntryPointToken, 2)` the tokens `= 1` are rejected -/
+example : (pegGetM generated 20 "EntryPointToken" [("EqOperatorToken", "="), ("LiteralToken", "1")]
+      ⟨[(("EntryPointToken", 2), .none)], 0⟩).1 matches .none := by decide +kernel
+
+/-- non-vacuity: a nested formula is accepted by the memoised parser with fewer `_get` executions than table keys -/
+example : (match astBuildM generated 60 "EntryPointToken"
+      [("EqOperatorToken", "="), ("BracketStartToken", "("), ("BracketStartToken", "("), ("LiteralToken", "1"),
+       ("BracketFinishToken", ")"), ("BracketFinishToken", ")")] with
+    | (.accept _, n) => decide (n ≤ 7 * generated.composites.length) | _ => false) = true := by decide +kernel
 
 /-! ### the regex lexer ends on every text -/
 
